@@ -19,6 +19,9 @@ mkdir -p "$S/verif"
 if [ "${MUTANT_HEAD:-0}" = 1 ]; then
 	# the committed machinery (used while checkers are being edited in the working tree)
 	git -C /verif archive HEAD harness known_findings.json | tar -x -C "$S/verif"
+	# git archive gives the files their commit time: older than a cached build of another commit in the shared target
+	# directory, which cargo would then take for fresh
+	find "$S/verif/harness" -type f -exec touch {} +
 else
 	rsync -a --exclude target /verif/harness "$S/verif/"
 	cp /verif/known_findings.json "$S/verif/" 2>/dev/null
